@@ -77,6 +77,38 @@ static void build(Fixture<HexM> &f) {
     f.props();
 }
 
+// "big" fixtures: a vertex (index 0) with many incident cells, so that size-dependent code paths of the queries are reached
+// (8 tets around the centre of an octahedron; 2x2x2 block of hexes around the centre vertex)
+static bool g_big = false;
+static void build_big(Fixture<PolyM> &f) {
+    auto &m = f.m;
+    std::vector<VertexHandle> v;
+    v.push_back(m.add_vertex(Vec3d(0, 0, 0)));
+    for (int ax = 0; ax < 3; ++ax) for (int sgn = 1; sgn >= -1; sgn -= 2) { Vec3d p(0, 0, 0); p[ax] = sgn * (1 + 0.25 * ax); v.push_back(m.add_vertex(p)); }
+    auto tet = [&](int a, int b, int c, int d) { m.add_cell({hf_of(m, {v[a], v[b], v[c]}), hf_of(m, {v[a], v[c], v[d]}), hf_of(m, {v[a], v[d], v[b]}), hf_of(m, {v[b], v[d], v[c]})}); };
+    for (int sx = 0; sx < 2; ++sx) for (int sy = 0; sy < 2; ++sy) for (int sz = 0; sz < 2; ++sz) { int X = 1 + sx, Y = 3 + sy, Z = 5 + sz; if ((sx + sy + sz) % 2 == 0) tet(0, X, Y, Z); else tet(0, Y, X, Z); }
+    f.props();
+}
+static void build_big(Fixture<TetM> &f) {
+    auto &m = f.m;
+    std::vector<VertexHandle> v;
+    v.push_back(m.add_vertex(Vec3d(0, 0, 0)));
+    for (int ax = 0; ax < 3; ++ax) for (int sgn = 1; sgn >= -1; sgn -= 2) { Vec3d p(0, 0, 0); p[ax] = sgn * (1 + 0.25 * ax); v.push_back(m.add_vertex(p)); }
+    for (int sx = 0; sx < 2; ++sx) for (int sy = 0; sy < 2; ++sy) for (int sz = 0; sz < 2; ++sz) { int X = 1 + sx, Y = 3 + sy, Z = 5 + sz; if ((sx + sy + sz) % 2 == 0) m.add_cell(v[0], v[X], v[Y], v[Z]); else m.add_cell(v[0], v[Y], v[X], v[Z]); }
+    f.props();
+}
+static void build_big(Fixture<HexM> &f) {
+    auto &m = f.m;
+    std::vector<VertexHandle> v(27);
+    auto id = [](int x, int y, int z) { return x + 3 * y + 9 * z; };
+    v[id(1, 1, 1)] = m.add_vertex(Vec3d(1, 1, 1));
+    for (int z = 0; z < 3; ++z) for (int y = 0; y < 3; ++y) for (int x = 0; x < 3; ++x) if (!(x == 1 && y == 1 && z == 1)) v[id(x, y, z)] = m.add_vertex(Vec3d(x, y, z));
+    for (int z = 0; z < 2; ++z) for (int y = 0; y < 2; ++y) for (int x = 0; x < 2; ++x)
+        m.add_cell({v[id(x, y, z)], v[id(x + 1, y, z)], v[id(x + 1, y + 1, z)], v[id(x, y + 1, z)], v[id(x, y, z + 1)], v[id(x, y + 1, z + 1)], v[id(x + 1, y + 1, z + 1)], v[id(x + 1, y, z + 1)]});
+    f.props();
+}
+template <class M> void build_fixture(Fixture<M> &f) { if (g_big) build_big(f); else build(f); }
+
 // ---------------------------------------------------------------------------------------------- reader bodies (const queries)
 struct Log { std::ostringstream o; template <class T> Log &operator<<(const T &x) { o << x << ' '; return *this; } };
 template <class It> void drain(Log &l, It it) { for (; it.valid(); ++it) l << (*it).idx(); l << '|'; }
@@ -90,10 +122,14 @@ template <class M> void query(const Fixture<M> &f, int q, Log &l) {
     case 3: for (auto h : m.halffaces()) { drain(l, m.hfhe_iter(h)); drain(l, m.hfv_iter(h)); drain(l, m.hfe_iter(h)); if (m.is_boundary(h)) drain(l, m.bhfhf_iter(h)); } for (auto x : m.faces()) { drain(l, m.fhe_iter(x)); drain(l, m.fv_iter(x)); drain(l, m.fe_iter(x)); } break;
     case 4: for (auto c : m.cells()) { drain(l, m.chf_iter(c)); drain(l, m.cf_iter(c)); drain(l, m.che_iter(c)); drain(l, m.ce_iter(c)); drain(l, m.cv_iter(c)); drain(l, m.cc_iter(c)); } break;
     case 5: {
-        for (auto a : m.vertices()) for (auto b : m.vertices()) l << m.find_halfedge(a, b).idx();
-        for (auto a : m.vertices()) for (auto b : m.vertices()) for (auto c : m.vertices()) if (a != b && b != c && a != c) { l << m.find_halfface({a, b, c}).idx() << m.find_halfface_extensive({a, b, c}).idx(); for (auto ch : m.cells()) l << m.find_halfface_in_cell({a, b, c}, ch).idx(); }
-        for (auto a : m.halfedges()) for (auto b : m.halfedges()) if (a.idx() % 3 == 0) l << m.find_halfface(std::vector<HalfEdgeHandle>{a, b}).idx();
-        for (auto ch : m.cells()) for (auto a : m.vertices()) for (auto b : m.vertices()) l << m.find_halfedge_in_cell(a, b, ch).idx();
+        std::vector<VertexHandle> vs;   // all vertices of the small fixtures, the first 9 of the big ones (cubic loops below)
+        for (auto a : m.vertices()) if (vs.size() < 9) vs.push_back(a);
+        std::vector<HalfEdgeHandle> hs;
+        for (auto a : m.halfedges()) if (hs.size() < 40) hs.push_back(a);
+        for (auto a : vs) for (auto b : vs) l << m.find_halfedge(a, b).idx();
+        for (auto a : vs) for (auto b : vs) for (auto c : vs) if (a != b && b != c && a != c) { l << m.find_halfface({a, b, c}).idx() << m.find_halfface_extensive({a, b, c}).idx(); for (auto ch : m.cells()) l << m.find_halfface_in_cell({a, b, c}, ch).idx(); }
+        for (auto a : hs) for (auto b : hs) if (a.idx() % 3 == 0) l << m.find_halfface(std::vector<HalfEdgeHandle>{a, b}).idx();
+        for (auto ch : m.cells()) for (auto a : vs) for (auto b : vs) l << m.find_halfedge_in_cell(a, b, ch).idx();
         break;
     }
     case 6: for (auto v : m.vertices()) l << m.is_boundary(v) << m.valence(v); for (auto e : m.edges()) l << m.is_boundary(e) << m.valence(e); for (auto h : m.halfedges()) l << m.is_boundary(h);
@@ -174,7 +210,7 @@ static bool g_capped = false;
 template <class M> void explore(const char *kname, int nthreads, int bound, int qa, int qb, int qc, double deadline, long &schedules, long &points_total, std::vector<Found> &found, std::vector<std::string> &samples,
                                 const std::string &replay) {
     Fixture<M> f;
-    build(f);
+    build_fixture(f);
     const std::string key0 = mesh_key(f.m);
     std::vector<int> qs{qa, qb};
     if (nthreads == 3) qs.push_back(qc);
@@ -236,7 +272,7 @@ template <class M> void explore(const char *kname, int nthreads, int bound, int 
 #ifdef THRMC_FREE
 template <class M> void free_run(const char *kname, int nthreads, int reps, std::vector<Found> &found, long &evals) {
     Fixture<M> f;
-    build(f);
+    build_fixture(f);
     std::vector<std::string> ref;
     for (int q = 0; q < NQ; ++q) { Log l; query(f, q, l); ref.push_back(l.o.str()); }
     const std::string key0 = mesh_key(f.m);
@@ -288,22 +324,23 @@ int main(int argc, char **argv) {
             replay = sc.empty() ? "0:-1;" : sc;
         }
     }
+    if (!kernel.empty() && kernel.back() == 'B') { g_big = true; kernel.pop_back(); }
     auto t0 = std::chrono::steady_clock::now();
     std::vector<Found> found;
     std::vector<std::string> samples;
     long schedules = 0, points = 0, evals = 0;
 #ifdef THRMC_SCHED
-    if (kernel == "poly") explore<PolyM>("poly", nthreads, bound, qa, qb, qc, deadline, schedules, points, found, samples, replay);
-    else if (kernel == "tet") explore<TetM>("tet", nthreads, bound, qa, qb, qc, deadline, schedules, points, found, samples, replay);
-    else explore<HexM>("hex", nthreads, bound, qa, qb, qc, deadline, schedules, points, found, samples, replay);
+    if (kernel == "poly") explore<PolyM>(g_big ? "polyB" : "poly", nthreads, bound, qa, qb, qc, deadline, schedules, points, found, samples, replay);
+    else if (kernel == "tet") explore<TetM>(g_big ? "tetB" : "tet", nthreads, bound, qa, qb, qc, deadline, schedules, points, found, samples, replay);
+    else explore<HexM>(g_big ? "hexB" : "hex", nthreads, bound, qa, qb, qc, deadline, schedules, points, found, samples, replay);
     evals = schedules;
 #endif
 #ifdef THRMC_FREE
     (void)bound; (void)qa; (void)qb; (void)qc; (void)deadline;
-    if (kernel == "poly") free_run<PolyM>("poly", nthreads, reps, found, evals);
-    else if (kernel == "tet") free_run<TetM>("tet", nthreads, reps, found, evals);
-    else free_run<HexM>("hex", nthreads, reps, found, evals);
-    samples.push_back(std::string("c20|free|") + kernel + "|threads=" + std::to_string(nthreads) + "|all " + std::to_string(NQ) + " queries, rotated start");
+    if (kernel == "poly") free_run<PolyM>(g_big ? "polyB" : "poly", nthreads, reps, found, evals);
+    else if (kernel == "tet") free_run<TetM>(g_big ? "tetB" : "tet", nthreads, reps, found, evals);
+    else free_run<HexM>(g_big ? "hexB" : "hex", nthreads, reps, found, evals);
+    samples.push_back(std::string("c20|free|") + kernel + (g_big ? "B" : "") + "|threads=" + std::to_string(nthreads) + "|all " + std::to_string(NQ) + " queries, rotated start");
 #endif
     if (!replay.empty()) {
         for (auto &f : found) printf("REPLAY-VIOLATION rule=%s detail=%s\n", f.rule.c_str(), f.detail.c_str());
